@@ -36,7 +36,7 @@ type FrameOb struct {
 }
 
 var framePropKinds = map[string][]string{
-	"C18": {"global", "noconc", "pkgvar", "readonly"},
+	"C18": {"global", "noconc", "pkgvar", "readonly", "noretain"},
 	"C17": {"global", "nondet", "pkgvar"},
 	"C12": {"global", "readonly", "replaces", "init", "noretain"},
 }
@@ -328,19 +328,176 @@ var retainAllowed = map[string]string{
 	"PolyPathBase.AddChild": "a tree node's payload is the polygon it is given; the engines pass freshly built paths (buildPath) and no function writes through PolyPath.polygon (frame.readonly)",
 }
 
-// retainedParams: statements that store a slice parameter (or a sub-slice of it) into a field
-func retainedParams(w *World, fd *ast.FuncDecl) []string {
-	info := w.prog.Info
-	params := map[types.Object]bool{}
-	for _, f := range fd.Type.Params.List {
-		for _, n := range f.Names {
-			if o := info.Defs[n]; o != nil {
-				if _, ok := o.Type().Underlying().(*types.Slice); ok {
-					params[o] = true
+// aliasTaint computes, for one function, which expressions may alias memory of a slice parameter:
+// the parameter itself, elements and sub-slices of it, range variables over it, results of package
+// functions that may return an alias of an argument (returnsAlias), and append(...) of such values.
+type aliasTaint struct {
+	w      *World
+	info   *types.Info
+	vars   map[types.Object]bool
+	retMay map[string]bool // functions whose result may alias a slice argument
+}
+
+func sliceLike(t types.Type) bool {
+	if t == nil {
+		return false
+	}
+	_, ok := t.Underlying().(*types.Slice)
+	return ok
+}
+
+func (a *aliasTaint) tainted(e ast.Expr) bool {
+	switch x := ast.Unparen(e).(type) {
+	case *ast.Ident:
+		return a.vars[a.info.Uses[x]]
+	case *ast.SliceExpr:
+		return a.tainted(x.X)
+	case *ast.IndexExpr:
+		if tv, ok := a.info.Types[x]; ok && sliceLike(tv.Type) {
+			return a.tainted(x.X)
+		}
+	case *ast.CallExpr:
+		if id, ok := ast.Unparen(x.Fun).(*ast.Ident); ok {
+			if id.Name == "append" && a.info.Uses[id] != nil && a.info.Uses[id].Pkg() == nil {
+				for _, arg := range x.Args {
+					if a.tainted(arg) {
+						return true
+					}
+				}
+				return false
+			}
+			if fn, ok := a.info.Uses[id].(*types.Func); ok && a.retMay[fn.Name()] {
+				for _, arg := range x.Args {
+					if a.tainted(arg) {
+						return true
+					}
 				}
 			}
 		}
 	}
+	return false
+}
+
+// seed marks the slice parameters and propagates through := / = / range inside the body (two passes)
+func (a *aliasTaint) seed(fd *ast.FuncDecl) {
+	a.vars = map[types.Object]bool{}
+	for _, f := range fd.Type.Params.List {
+		for _, n := range f.Names {
+			if o := a.info.Defs[n]; o != nil && sliceLike(o.Type()) {
+				a.vars[o] = true
+			}
+		}
+	}
+	for pass := 0; pass < 3; pass++ {
+		ast.Inspect(fd.Body, func(n ast.Node) bool {
+			switch x := n.(type) {
+			case *ast.AssignStmt:
+				for i, l := range x.Lhs {
+					if i < len(x.Rhs) && len(x.Lhs) == len(x.Rhs) && a.tainted(x.Rhs[i]) {
+						if id, ok := ast.Unparen(l).(*ast.Ident); ok {
+							o := a.info.Defs[id]
+							if o == nil {
+								o = a.info.Uses[id]
+							}
+							if o != nil && sliceLike(o.Type()) {
+								a.vars[o] = true
+							}
+						}
+					}
+				}
+			case *ast.RangeStmt:
+				if x.Value != nil && a.tainted(x.X) {
+					if id, ok := x.Value.(*ast.Ident); ok {
+						if o := a.info.Defs[id]; o != nil && sliceLike(o.Type()) {
+							a.vars[o] = true
+						}
+					}
+				}
+			}
+			return true
+		})
+	}
+}
+
+// returnsAliasSet: fixpoint over the package of "some return value may alias a slice parameter"
+func returnsAliasSet(w *World) map[string]bool {
+	ret := map[string]bool{}
+	for changed := true; changed; {
+		changed = false
+		for k, fd := range w.prog.Funcs {
+			if fd.Body == nil || fd.Recv != nil || ret[fd.Name.Name] {
+				continue
+			}
+			_ = k
+			a := &aliasTaint{w: w, info: w.prog.Info, retMay: ret}
+			a.seed(fd)
+			found := false
+			// returns under "if len(p) == 0" hand back an empty slice: no memory is shared
+			lenVars := map[types.Object]bool{}
+			isLenOfTainted := func(e ast.Expr) bool {
+				switch x := ast.Unparen(e).(type) {
+				case *ast.CallExpr:
+					if id, ok := x.Fun.(*ast.Ident); ok && id.Name == "len" && len(x.Args) == 1 {
+						return a.tainted(x.Args[0])
+					}
+				case *ast.Ident:
+					return lenVars[a.info.Uses[x]]
+				}
+				return false
+			}
+			ast.Inspect(fd.Body, func(n ast.Node) bool {
+				if as, ok := n.(*ast.AssignStmt); ok && len(as.Lhs) == 1 && len(as.Rhs) == 1 && isLenOfTainted(as.Rhs[0]) {
+					if id, ok := as.Lhs[0].(*ast.Ident); ok {
+						if o := a.info.Defs[id]; o != nil {
+							lenVars[o] = true
+						}
+					}
+				}
+				return true
+			})
+			emptyGuarded := map[ast.Node]bool{}
+			ast.Inspect(fd.Body, func(n ast.Node) bool {
+				if is, ok := n.(*ast.IfStmt); ok {
+					if be, ok := ast.Unparen(is.Cond).(*ast.BinaryExpr); ok && be.Op == token.EQL && isLenOfTainted(be.X) {
+						if tv, ok := a.info.Types[be.Y]; ok && tv.Value != nil && tv.Value.String() == "0" {
+							ast.Inspect(is.Body, func(m ast.Node) bool {
+								if rs, ok := m.(*ast.ReturnStmt); ok {
+									emptyGuarded[rs] = true
+								}
+								return true
+							})
+						}
+					}
+				}
+				return true
+			})
+			ast.Inspect(fd.Body, func(n ast.Node) bool {
+				if rs, ok := n.(*ast.ReturnStmt); ok && !emptyGuarded[rs] {
+					for _, r := range rs.Results {
+						if tv, ok := a.info.Types[r]; ok && sliceLike(tv.Type) && a.tainted(r) {
+							found = true
+						}
+					}
+				}
+				return !found
+			})
+			if found {
+				ret[fd.Name.Name] = true
+				changed = true
+			}
+		}
+	}
+	return ret
+}
+
+// retainedParams: statements that store memory of a slice parameter (the parameter, a sub-slice or
+// element of it, or the result of a function that may hand its argument back) into an object field
+func retainedParams(w *World, fd *ast.FuncDecl) []string {
+	if w.retAlias == nil {
+		w.retAlias = returnsAliasSet(w)
+	}
+	a := &aliasTaint{w: w, info: w.prog.Info, retMay: w.retAlias}
+	a.seed(fd)
 	var sites []string
 	ast.Inspect(fd.Body, func(n ast.Node) bool {
 		as, ok := n.(*ast.AssignStmt)
@@ -348,18 +505,21 @@ func retainedParams(w *World, fd *ast.FuncDecl) []string {
 			return true
 		}
 		for i, l := range as.Lhs {
-			if _, isSel := ast.Unparen(l).(*ast.SelectorExpr); !isSel {
+			root := ast.Unparen(l)
+			if ix, ok := root.(*ast.IndexExpr); ok {
+				root = ast.Unparen(ix.X)
+			}
+			if _, isSel := root.(*ast.SelectorExpr); !isSel {
 				continue
 			}
-			if i >= len(as.Rhs) {
+			if i >= len(as.Rhs) || len(as.Lhs) != len(as.Rhs) {
 				continue
 			}
-			r := ast.Unparen(as.Rhs[i])
-			if se, ok := r.(*ast.SliceExpr); ok {
-				r = ast.Unparen(se.X)
+			if tv, ok := a.info.Types[as.Rhs[i]]; !ok || !sliceLike(tv.Type) {
+				continue
 			}
-			if id, ok := r.(*ast.Ident); ok && params[info.Uses[id]] {
-				sites = append(sites, id.Name+" stored at "+w.eff.pos(as))
+			if a.tainted(as.Rhs[i]) {
+				sites = append(sites, exprString(w.prog.Fset, as.Rhs[i])+" stored at "+w.eff.pos(as))
 			}
 		}
 		return true
